@@ -83,7 +83,8 @@ Verdict(c) ==
       kfAny == \E j \in 1..(k-1) : stepTags[j][1] = "KF1"
       otherBad == \E j \in 1..(k-1) : stepTags[j][1] = "V:C08.step_unsound"
       nfTags == (IF nfj.bad # {} THEN <<"V:C08.nf_unsound">> ELSE <<>>)
-                \o (IF ~c.capped /\ Strip(NF(fs[k], c.budget)) # Strip(c.nf) THEN <<"drift">> ELSE <<>>)
+                \* (the model's own NF pass is only run on inputs below 150 nodes: on a very large, given-up form it re-normalises every term with a full budget)
+                \o (IF ~c.capped /\ size0 < 150 /\ Strip(NF(fs[k], c.budget)) # Strip(c.nf) THEN <<"drift">> ELSE <<>>)
       e2eTags == (IF e2e.bad # {} THEN
                      (IF kfAny /\ ~otherBad /\ nfj.bad = {} /\ (c.budget < 1000 \/ Strip(c.norm) = Strip(c.nf)) THEN <<"KF1">> ELSE <<"V:C08.normalize_unsound">>)
                   ELSE <<>>)
